@@ -11,6 +11,7 @@
 mod builder;
 mod nodes;
 mod read;
+pub(super) mod sync;
 mod versioned;
 mod write;
 
